@@ -10,8 +10,13 @@ def run(ctx):
            T.docs_containment_rule(m["ts_rs_macros"], ctx.syn, "C15"), T.docs_separator_rule(ctx.syn, m["ts_rs"], "C15")]
     out.append(T.docs_init_rule(ctx.syn, "C15"))
     out.append(T.impl_assembly_rule(ctx.syn, "C15", "C15.R8"))
+    from rules import libimpls as L
+    out.append(L.units_rule(m["ts_rs"], "C15", rule="C15.R10"))
+    out.append(T.operand_scanner_rule(ctx.syn, "C15", rule="C15.R11"))
     from rules import merge_rules as MR
     out.append(MR.merge_verbatim_rule(m["ts_rs"], "C15", rule="C15.R6"))
+    from rules import export_rules as E
+    out.append(E.write_path_verbatim_rule(m["ts_rs"], "C15", rule="C15.R9"))
     for fs in ctx.featuresets():
         r = T.docs_unconditional_rule(ctx.mir(fs)["ts_rs_macros"], "C15")
         if fs != "default":
